@@ -894,6 +894,8 @@ def work(args):
     for kind, payload in args:
         if kind == "a":
             check_batch_a(payload, acc, vals)
+        elif kind == "ax":
+            check_batch_a(payload, acc, vals + expr.exotic_valuations())
         elif kind == "guards":
             check_guards(acc)
         elif kind == "reload":
@@ -916,7 +918,11 @@ def run(tier, t0):
     level = 2 if tier == "quick" else 3
     conds = c06.conditions(level)
     indexed = list(enumerate(conds))
-    items = [("a", indexed[i:i + c06.BATCH]) for i in range(0, len(indexed), c06.BATCH)]
+    # as in C06: the depth<=2 conditions also run on the valuations with unusual __eq__ / truth values / comparison results
+    small = {c[3] for c in c06.conditions(2)} if level > 2 else None
+    ex = [it for it in indexed if small is None or it[1][3] in small]
+    rest = [it for it in indexed if small is not None and it[1][3] not in small]
+    items = [("ax", ex[i:i + c06.BATCH]) for i in range(0, len(ex), c06.BATCH)] + [("a", rest[i:i + c06.BATCH]) for i in range(0, len(rest), c06.BATCH)]
     items.append(("guards", None))
     items.append(("reload", None))
     items.append(("kinds", None))
@@ -967,7 +973,7 @@ def replay(path):
         check_zip(acc)
     else:
         idx = {"require": 0, "ensure": 7, "invariant": 9}[data["role"]]
-        check_batch_a([(idx, ("?", data["cond"], 0, data["cond"]))], acc, expr.valuations())
+        check_batch_a([(idx, ("?", data["cond"], 0, data["cond"]))], acc, expr.valuations() + expr.exotic_valuations())
     for v in acc.violations[:5]:
         print("VIOLATION property={} replay={}".format(PROP, path))
         print(" ", v.symptom, v.detail[:600])
